@@ -373,8 +373,9 @@ class VolumeMesh(Mesh):
                     keys_cell[nextC] = kc
                     iC = nextC
                     p2 = [x for x in self.mesh.cells[iC] if x not in (A,B,p2)][0]
-                self._adjE2C[e].sort(key= lambda c : keys_cell[c])
-                self._adjE2F[e].sort(key= lambda f : keys_face[f])
+                # cells/faces that are not reachable through faces around the edge (non-manifold edge) are put last
+                self._adjE2C[e].sort(key= lambda c : keys_cell.get(c, float("inf")))
+                self._adjE2F[e].sort(key= lambda f : keys_face.get(f, float("inf")))
 
         ##### Faces - Cells #####
 
